@@ -280,6 +280,12 @@ func Concretise(q Req, r *rand.Rand, model string) *Concrete {
 	case "two":
 		c.Stops = []string{"STOP" + randStr(r, 1, 6), "\n\nHuman:" + randStr(r, 0, 3)}
 		top = append(top, kv{"stop_sequences", c.Stops})
+	case "seven":
+		c.Stops = nil
+		for i := 1; i <= 7; i++ {
+			c.Stops = append(c.Stops, fmt.Sprintf("S%d-%s", i, randStr(r, 1, 5)))
+		}
+		top = append(top, kv{"stop_sequences", c.Stops})
 	}
 	switch cfg.Stream {
 	case "true":
@@ -343,6 +349,14 @@ func Concretise(q Req, r *rand.Rand, model string) *Concrete {
 	var msgs []any
 	for mi, m := range q.Msgs {
 		mno := mi + 1
+		if m.Form == "null" {
+			msgs = append(msgs, obj(r, true, kv{"role", m.Role}, kv{"content", nil}))
+			continue
+		}
+		if m.Form == "absent" {
+			msgs = append(msgs, obj(r, true, kv{"role", m.Role}))
+			continue
+		}
 		if m.Form == "str" {
 			s := ""
 			if len(m.Blocks) > 0 && m.Blocks[0].K == "text" {
